@@ -17,6 +17,7 @@ import Mfi.Props.C09
 import Mfi.Gen.TxLists
 import Mfi.Lemmas.ConstL
 import Mfi.Lemmas.WorldL
+import Mfi.Lemmas.WorldTxL
 
 namespace Mfi.Props.C07
 open Mfi Mfi.Fx Mfi.Bank Mfi.Gen
@@ -355,6 +356,24 @@ theorem world_bankruptcy_spec {c : Ctx} {available : Int} {o : BkrOut} (h : Worl
     subst h
     exact ⟨c1, c4, c2, c3, c5, c6, Bank.chk_ok ha, bankState_ok hs, ⟨ps, eq, hps, heq⟩,
       b, i, x, st, hb, hi, hx, hst, rfl, rfl, rfl, rfl, rfl⟩
+
+/-- **world_tx_every_settlement_is_of_real_bad_debt**: every bankruptcy settlement of a COMMITTED transaction of the world machine ran
+    on a reached state on which the risk engine's own assessment found the account bankrupt (unweighted assets below liabilities and
+    below ten cents), the account was neither in receivership nor inside a flash loan, and the signer was the group admin, the risk
+    admin, or anyone if the bank opted into permissionless settlement — whatever else the transaction contains -/
+theorem world_tx_every_settlement_is_of_real_bad_debt {w w' : WState} {tx : List TOp} (h : w.runTx tx = some w')
+    {i ai bi signer : Nat} {available : Int} (hi : tx[i]? = some (.ix (.bankruptcy ai bi signer available))) :
+    ∃ (wi : WState) (a : AcctV) (b : WBank) (o : BkrOut), wi.accts[ai]? = some a ∧ wi.banks[bi]? = some b ∧
+      World.bankruptcy (wi.ctx a b signer b.v.liquidityVault 0) available = .ok o ∧
+      hasFlag a.flags ACCOUNT_IN_RECEIVERSHIP = false ∧ hasFlag a.flags ACCOUNT_IN_FLASHLOAN = false ∧
+      Bank.bankruptcyAuthorized (hasFlag b.v.books.flags PERMISSIONLESS_BAD_DEBT_SETTLEMENT_FLAG) signer wi.g.admin wi.g.riskAdmin = true ∧
+      ∃ ps eq, portfolio (wi.ctx a b signer b.v.liquidityVault 0) a.slots b.v.books = .ok ps ∧ Risk.checkBankrupt ps = .ok eq ∧
+        eq.1 < eq.2 ∧ eq.1 < BANKRUPT_THRESHOLD := by
+  obtain ⟨wi, a, b, o, ha, hb, ho⟩ := tx_bankruptcy_ran h hi
+  obtain ⟨_, _, _, _, hr, hf, hauth, _, ⟨ps, eq, hps, hbk⟩, _⟩ := world_bankruptcy_spec ho
+  obtain ⟨e1, e2⟩ := eq
+  obtain ⟨h1, h2, _, _⟩ := bankrupt_only_if hbk
+  exact ⟨wi, a, b, o, ha, hb, ho, hr, hf, hauth, ps, (e1, e2), hps, hbk, h1, h2⟩
 
 /-- … in particular a bank that is paused or was killed by an earlier bankruptcy settles nothing -/
 theorem world_bankruptcy_needs_live_bank (c : Ctx) (available : Int)
